@@ -122,6 +122,16 @@ def family():
         "MaybePeople": {"type": "array", "items": ref("Person"), "nullable": True},
         "Task": obj(assignee={"nullable": True, "allOf": [ref("Person"), obj(role={"type": "string"})]}, owner=ref("MaybePerson"), team=ref("MaybePeople"))},
         paths={"/t": {"get": {"operationId": "getT", "responses": jr("Task")}}}, version="3.0.3"), {})
+    # two enums that resolve to ONE class with the same value set listed in a different order (the class keeps one declaration)
+    F["same-enum-class-other-order"] = gen.base_doc({
+        "Pet": obj(status_code={"type": "string", "enum": ["ok", "sick", "gone"]}, name={"type": "string"}),
+        "PetStatus": obj(code={"type": "string", "enum": ["gone", "ok", "sick"]}),
+        "Alpha": {"type": "string", "title": "Level", "enum": ["lo", "mid", "hi"]}, "Beta": obj(l={"type": "string", "title": "Level", "enum": ["hi", "lo", "mid"]})})
+    # class names that differ only in case, in different modules
+    F["case-twin-class-names"] = gen.base_doc({
+        "FileName": obj(a={"type": "string"}), "Filename": obj(b={"type": "string"}), "UserName": obj(c={"type": "string"}), "Username": obj(d={"type": "string"}),
+        "TimeStamp": {"type": "string", "enum": ["t1"]}, "Timestamp": {"type": "string", "enum": ["t2"]}, "PostCode": {"type": "integer", "enum": [1]}, "Postcode": {"type": "integer", "enum": [2]},
+        "Holder": obj(f1=ref("FileName"), f2=ref("Filename"), u1=ref("UserName"), u2=ref("Username"), t1=ref("TimeStamp"), t2=ref("Timestamp"), p1=ref("PostCode"), p2=ref("Postcode"))})
     # literal enums whose values differ only in case
     F["literal-enum-case"] = (gen.base_doc({"Unit": {"type": "string", "enum": ["m", "M", "mm", "Mm", "MM", "k", "K"]}, "Holder": obj(u=ref("Unit"), v={"type": "string", "enum": ["a", "A", "b", "B"]})}),
                               {"literal_enums": True})
